@@ -95,9 +95,11 @@ def cases(tier, seed):
     for i in range(6 if quick else 60):
         out.append({'part': 'realnames', 'idx': i,
                     'wseed': rng.randrange(1 << 30)})
-    out.append({'part': 'validate', 'idx': 0, 'wseed': rng.randrange(1 << 30)})
+    for i in range(5):
+        out.append({'part': 'validate', 'idx': i,
+                    'wseed': rng.randrange(1 << 30)})
     if not quick:
-        for i in range(1, 6):
+        for i in range(5, 12):
             out.append({'part': 'validate', 'idx': i,
                         'wseed': rng.randrange(1 << 30)})
     return out
